@@ -1,0 +1,18 @@
+//go:build verif
+
+// Contracts for the primev keyper flavour, checked by /verif/govc (C05: no gossip message may crash a
+// node). Comments only.
+package primev
+
+//@ func getBidderNodeAddress
+//@   ensures ret1 == nil ==> ret0 != nil
+//@
+//@ func computeIdentity
+//@
+//@ pred isCommitmentMsg(msg) := msg != nil && (typeis(msg, "*p2pmsg.Commitment") ==> (as(msg, "*p2pmsg.Commitment") != nil && len(as(msg, "*p2pmsg.Commitment").Identities) <= 1048576))
+//@ func (*PrimevCommitmentHandler).ValidateMessage
+//@   requires h != nil && h.config != nil && isCommitmentMsg(msg)
+//@   ensures ret0 == 0 || ret0 == 1
+//@ func (*PrimevCommitmentHandler).HandleMessage
+//@   requires h != nil && h.config != nil && isCommitmentMsg(msg) && ctx != nil
+//@   opt frame = off
